@@ -59,6 +59,25 @@ def monitors(spec, events, obs, trace, quiescent):
                 add("C05", "launched-despite-success-marker", f"job {j} launched although its success marker existed")
         elif e[0] == "registered":
             registered_other[e[1]] = e[2]
+    # --- de-duplication at submission (C05, first sentence) ------------------------------------------
+    holder = {}  # identifier -> index of the job currently registered for it
+    for t, ev in enumerate(events):
+        if ev[0] != "submit" or t >= len(obs):
+            continue
+        j = ev[1]
+        ident = jobs[j]["ident"]
+        if j not in registered_other:
+            continue
+        h = holder.get(ident)
+        if h is not None:
+            before = obs[t - 1]["states"][h] if t > 0 else None
+            after = obs[t]["states"][h]
+            if before != "ERROR" and after != "ERROR" and registered_other[j] != h:
+                add("C05", "duplicate-not-deduplicated",
+                    f"submission {j} repeats the configuration of job {h}, which has not failed (state {after}), but "
+                    f"{'a second job was created' if registered_other[j] is None else 'job %s was returned' % registered_other[j]}")
+        if registered_other[j] is None:
+            holder[ident] = j
     # --- per observation ---------------------------------------------------------------------
     final = {}  # job -> first future result
     running = set()
